@@ -71,13 +71,14 @@ func init() {
 		Blank:    func() any { return &C13Scenario{} },
 		Run:      func(sc any, tr *kit.Trace) *kit.Result { return runC13(sc.(*C13Scenario), tr) },
 		Shrink:   shrinkC13,
+		Warmup:   true, // the four-server fan-out runs its exchanges in parallel with more than one P
 		PerChunk: 30,
 		Quick:    1200,
 		Thorough: 60000,
 	})
 }
 
-var c13Zones = []string{"alpha.test.", "beta.test.", "sub.alpha.test."}
+var c13Zones = []string{"alpha.test.", "beta.test.", "sub.alpha.test.", "gamma.test."}
 
 func genC13(r *kit.RNG) *C13Scenario {
 	sc := &C13Scenario{Seed: r.Uint64(), MinS: kit.Pick(r, []int{1, 2, 5, 5, 10, 30}), Size: kit.Pick(r, []int{1, 2, 8, 4096}), RFC9520Off: r.Chance(0.1)}
@@ -96,6 +97,15 @@ func genC13(r *kit.RNG) *C13Scenario {
 			Kind: kit.Pick(r, []string{"silent", "silent", "servfail", "refused", "slow"})})
 	}
 	names := []string{"www.alpha.test.", "mail.alpha.test.", "www.beta.test.", "www.sub.alpha.test.", "nx.alpha.test.", "alpha.test."}
+	if r.Chance(0.3) {
+		// three of gamma's four servers lame, the fourth healthy but slower: nothing of the
+		// zone has failed, so nothing of it may be suppressed
+		from := r.Intn(horizon / 4)
+		sc.Outages = append(sc.Outages, C13Outage{Zone: "gamma.test.", FromMs: from, ToMs: from + kit.Pick(r, []int{60000, 200000}), Kind: kit.Pick(r, []string{"partial-refused", "partial-servfail"})})
+		names = append(names, "www.gamma.test.", "mail.gamma.test.", "ftp.gamma.test.", "www.gamma.test.", "mail.gamma.test.", "ftp.gamma.test.")
+	} else if r.Chance(0.3) {
+		names = append(names, "www.gamma.test.", "mail.gamma.test.")
+	}
 	n := r.Range(6, 30)
 	t := 0
 	for i := 0; i < n; i++ {
@@ -133,6 +143,11 @@ func c13Spec(sc *C13Scenario) *world.Spec {
 		{Name: "sub.alpha.test.", NSNames: []string{"ns1.sub.alpha.test."}, Addrs: []string{"192.0.2.41"}, NSTTL: 86400,
 			Records: []string{"ns1.sub.alpha.test. 86400 IN A 192.0.2.41", "www.sub.alpha.test. 5 IN A 10.0.2.1"}},
 	}
+	// four servers: three of them can be lame while the fourth, slower one still answers
+	sp.Zones = append(sp.Zones, world.ZoneSpec{Name: "gamma.test.", NSNames: []string{"ns1.gamma.test.", "ns2.gamma.test.", "ns3.gamma.test.", "ns4.gamma.test."},
+		Addrs: []string{"192.0.2.51", "192.0.2.52", "192.0.2.53", "192.0.2.54"}, NSTTL: 86400,
+		Records: []string{"ns1.gamma.test. 86400 IN A 192.0.2.51", "ns2.gamma.test. 86400 IN A 192.0.2.52", "ns3.gamma.test. 86400 IN A 192.0.2.53", "ns4.gamma.test. 86400 IN A 192.0.2.54",
+			"www.gamma.test. 5 IN A 10.0.3.1", "mail.gamma.test. 5 IN A 10.0.3.2", "ftp.gamma.test. 5 IN A 10.0.3.3"}})
 	for i := range sp.Zones {
 		sp.Zones[i].SOAMin = 5
 	}
@@ -195,6 +210,19 @@ func execC13(sc *C13Scenario, tr *kit.Trace, res *kit.Result) {
 		case "refused":
 			m.Rcode = dns.RcodeRefused
 			return world.PackReply(m, q)
+		case "partial-refused", "partial-servfail":
+			if addr.String() == "192.0.2.54" {
+				r := world.PackReply(honest.Msg, q)
+				for i := range r {
+					r[i].Delay = 250 * time.Millisecond
+				}
+				return r
+			}
+			m.Rcode = dns.RcodeRefused
+			if o.Kind == "partial-servfail" {
+				m.Rcode = dns.RcodeServerFailure
+			}
+			return world.PackReply(m, q)
 		case "slow":
 			r := world.PackReply(honest.Msg, q)
 			for i := range r {
@@ -216,7 +244,7 @@ func execC13(sc *C13Scenario, tr *kit.Trace, res *kit.Result) {
 			if len(z) > len(best) {
 				best = z
 			}
-			if o := inOutage(z, at); o != nil && o.Kind != "slow" && (failing == "" || len(z) < len(failing)) {
+			if o := inOutage(z, at); o != nil && o.Kind != "slow" && !strings.HasPrefix(o.Kind, "partial") && (failing == "" || len(z) < len(failing)) {
 				failing = z
 			}
 		}
@@ -237,7 +265,7 @@ func execC13(sc *C13Scenario, tr *kit.Trace, res *kit.Result) {
 			if len(z) > len(deepest) {
 				deepest = z
 			}
-			if o := inOutage(z, at); o != nil && o.Kind != "slow" {
+			if o := inOutage(z, at); o != nil && o.Kind != "slow" && !strings.HasPrefix(o.Kind, "partial") {
 				out = append(out, z)
 			}
 		}
@@ -365,7 +393,18 @@ func execC13(sc *C13Scenario, tr *kit.Trace, res *kit.Result) {
 			if op.DeadlineMs > 0 && !local {
 				o1 = nil // fast failure rcodes under a deadline: either reading is legitimate
 			}
-			if o1 != nil && o1 == o2 && o1.Kind != "slow" && !local && upstream > 0 {
+			if o1 != nil && strings.HasPrefix(o1.Kind, "partial") {
+				// one server of the zone was answering all along: whatever sdns made of this
+				// question, the zone did not fail. Only the exact question may be remembered.
+				f := qFails[qkey]
+				if f == nil {
+					f = &c13Fail{}
+					qFails[qkey] = f
+				}
+				f.streak++
+				f.at = done
+				res.Probes["failure-during-partial-outage"]++
+			} else if o1 != nil && o1 == o2 && o1.Kind != "slow" && !local && upstream > 0 {
 				// genuine: the zone's servers were all failing for the whole resolution
 				f := qFails[qkey]
 				if f == nil {
